@@ -49,7 +49,7 @@ VARIABLES plugins,   \* configured plugins in configuration order: [load, order,
 
 vars == <<plugins, phase, loaded, called, spansOpen, aborted>>
 
-PluginRecs == [load : LoadKinds, order : 0..1, roles : RoleSets, faults : FaultSets]
+PluginRecs == [load : LoadKinds, order : 0..2, roles : RoleSets, faults : FaultSets]   \* order 0..2 stands for -1, 0, 1
 
 Init ==
     /\ plugins = <<>> /\ phase = 0 /\ loaded = <<>> /\ called = <<>> /\ spansOpen = {} /\ aborted = {}
@@ -63,12 +63,11 @@ Configure(p) ==
 (* stable sort of the loadable plugins by their declared order *)
 Loadable == {i \in 1..Len(plugins) : plugins[i].load = "ok"}
 SortedLoad ==
-    LET low == {i \in Loadable : plugins[i].order = 0}
-        high == {i \in Loadable : plugins[i].order = 1}
-        Asc(S) == LET F[k \in 0..Len(plugins)] ==
+    LET Asc(S) == LET F[k \in 0..Len(plugins)] ==
                           IF k = 0 THEN <<>> ELSE IF k \in S THEN Append(F[k - 1], k) ELSE F[k - 1]
                   IN F[Len(plugins)]
-    IN Asc(low) \o Asc(high)
+        With(o) == {i \in Loadable : plugins[i].order = o}
+    IN Asc(With(0)) \o Asc(With(1)) \o Asc(With(2))
 
 Load ==
     /\ phase = 0 /\ plugins # <<>>
